@@ -215,15 +215,23 @@ def run_frontier(case):
     out.label(dec)
     scale = max(1.0, float(np.abs(st_).max())) if np.all(np.isfinite(st_)) else float("inf")
     tol = tempogen.trunc_tol(p, 1000.0)
-    if not np.all(np.isfinite(st_)) or scale > 10.0:
+    cut = tempogen.cutoff_active(p)
+    out.label("cutoff-active" if cut else "full-memory")
+    # Boundedness (|rho_ij| <= 1) is a consequence of positivity, which the property claims for full memory only: with
+    # a memory cut-off in force the truncated influence functional is not positive definite and coherences may grow
+    # with exact arithmetic (seen at D=8, dkmax=1, add_correlation_time=1.5dt: max|rho_ij|=15.5 for every epsrel
+    # 1e-6..1e-14 with |tr-1| = 3e-15) - not a violation.  Non-finite entries are a failure in every case.
+    if not np.all(np.isfinite(st_)) or (scale > 10.0 and not cut):
         out.fail("unbounded:" + dec, f"max|rho_ij|={scale:.3e} at D={Dt}")
         return out
+    if scale > 10.0:
+        out.label("cutoff-growth>10")
     tr = np.abs(np.trace(st_, axis1=1, axis2=2) - 1).max()
     he = np.abs(st_ - st_.conj().transpose(0, 2, 1)).max()
-    if tr > tol * 100:
-        out.fail("trace:" + dec, f"|tr-1|={tr:.3e} at D={Dt}")
-    if he > tol * 100:
-        out.fail("hermiticity:" + dec, f"dev={he:.3e} at D={Dt}")
+    if tr > tol * 100 * scale:
+        out.fail("trace:" + dec, f"|tr-1|={tr:.3e} at D={Dt} (max|rho_ij|={scale:.3e})")
+    if he > tol * 100 * scale:
+        out.fail("hermiticity:" + dec, f"dev={he:.3e} at D={Dt} (max|rho_ij|={scale:.3e})")
     return out
 
 
